@@ -44,7 +44,7 @@ func c17Ops() []c17Op {
 	reply := model.CmdClassifierTypeReply
 	notify := model.CmdClassifierTypeNotify
 	call := model.CmdClassifierTypeCall
-	e1a := []uint{1}
+	e1a, e2a := []uint{1}, []uint{2}
 	nmRead := func(cmd model.CmdType) func(cw *c17W, s, side, k int) {
 		return func(cw *c17W, s, side, k int) { cw.in(s, read, cw.nm(s), rig.LNM, false, nil, cmd) }
 	}
@@ -92,22 +92,82 @@ func c17Ops() []c17Op {
 		{name: "in.read.unknown-feature", conn: true, f: func(cw *c17W, s, side, k int) {
 			cw.in(s, read, cw.pa(s, e1a, 1), rig.FA(rig.LocalAddr, e1a, 77), false, nil, model.CmdType{LoadControlLimitListData: &model.LoadControlLimitListDataType{}})
 		}},
+		// two writers: peer 0 holds the binding of [1]/1, peer 1 the one of [2]/3
 		{name: "in.write.limits", fixed0: true, f: func(cw *c17W, s, side, k int) {
-			cw.in(0, model.CmdClassifierTypeWrite, cw.pa(0, e1a, 1), cw.lc.Address(), true, nil, c17LimCmd(10+side+2*k))
+			c17Rot(k, func() {
+				cw.in(0, model.CmdClassifierTypeWrite, cw.pa(0, e1a, 1), cw.lc.Address(), true, nil, c17LimCmd(10+side+2*k))
+			}, func() {
+				cw.in(1, model.CmdClassifierTypeWrite, cw.pa(1, e1a, 1), cw.lc2.Address(), true, nil, c17LimCmd(11+side+2*k))
+			})
 		}},
+		// The bindings change hands with writes pending: [1]/1 between the two healthy peers (the giver writes, gives the
+		// binding up, the taker binds and writes: the feature then holds pending writes, timers and counted approvals of
+		// two connections), [2]/3 between peer 1 and a peer WITHOUT writer, whose writes end in a result that can not be
+		// sent whatever the verdict is (approved, denied, timed out, or applied at once where no callback is registered).
+		{name: "in.binding-handover+write", rare: 3, f: func(cw *c17W, s, side, k int) {
+			wr := model.CmdClassifierTypeWrite
+			bindReq := func(client *model.FeatureAddressType, server api.FeatureLocalInterface) model.CmdType {
+				return model.CmdType{NodeManagementBindingRequestCall: spine.NewNodeManagementBindingRequestCallType(client, server.Address(), model.FeatureTypeTypeLoadControl)}
+			}
+			bindDel := func(client *model.FeatureAddressType, server api.FeatureLocalInterface) model.CmdType {
+				return model.CmdType{NodeManagementBindingDeleteCall: spine.NewNodeManagementBindingDeleteCallType(client, server.Address())}
+			}
+			taker, muteTakes := (s+k)%2, k%2 == 0
+			if cw.soak { // random k: the healthy writers hold their bindings most of the time
+				taker, muteTakes = []int{0, 1, 0, 0}[k%4], k%4 == 1
+			}
+			giver := 1 - taker
+			cw.in(giver, wr, cw.pa(giver, e1a, 1), cw.lc.Address(), true, nil, c17LimCmd(70+side+2*k))
+			cw.in(giver, call, cw.nm(giver), rig.LNM, true, nil, bindDel(cw.pa(giver, e1a, 1), cw.lc))
+			cw.in(taker, call, cw.nm(taker), rig.LNM, true, nil, bindReq(cw.pa(taker, e1a, 1), cw.lc))
+			cw.in(taker, wr, cw.pa(taker, e1a, 1), cw.lc.Address(), true, nil, c17LimCmd(71+side+2*k))
+			if muteTakes {
+				cw.in(1, call, cw.nm(1), rig.LNM, true, nil, bindDel(cw.pa(1, e1a, 1), cw.lc2))
+				cw.muteIn(s, false, false, func(m *c17Mute, send c17MuteSend) {
+					send(call, rig.FA(m.addr, []uint{0}, 0), rig.LNM, true, nil, bindReq(rig.FA(m.addr, e1a, 1), cw.lc2))
+					send(wr, rig.FA(m.addr, e1a, 1), cw.lc2.Address(), true, nil, c17LimCmd(72+side+2*k))
+					send(wr, rig.FA(m.addr, e1a, 1), cw.lc2.Address(), true, nil, c17LimCmd(73+side+2*k))
+					send(wr, rig.FA(m.addr, e1a, 1), cw.lc2.Address(), true, nil, c17LimCmd(74+side+2*k))
+				})
+			} else {
+				cw.muteIn(s, false, false, func(m *c17Mute, send c17MuteSend) {
+					send(call, rig.FA(m.addr, []uint{0}, 0), rig.LNM, true, nil, bindDel(rig.FA(m.addr, e1a, 1), cw.lc2))
+				})
+				cw.in(1, call, cw.nm(1), rig.LNM, true, nil, bindReq(cw.pa(1, e1a, 1), cw.lc2))
+				cw.in(1, wr, cw.pa(1, e1a, 1), cw.lc2.Address(), true, nil, c17LimCmd(75+side+2*k))
+			}
+		}},
+		// (notify, reply, result and subscribe address a feature of entity [1] AND its twin of entity [2] - the entity the
+		// RemoveEntity(shared) operation takes away - in rotated order)
 		{name: "in.notify.meas", conn: true, f: func(cw *c17W, s, side, k int) {
-			cw.in(s, notify, cw.pa(s, e1a, 2), cw.mcl.Address(), false, nil, c17MeasCmd(side+k, k%2 == 0))
+			c17Rot(k, func() { cw.in(s, notify, cw.pa(s, e1a, 2), cw.mcl.Address(), false, nil, c17MeasCmd(side+k, k%2 == 0)) },
+				func() {
+					cw.in(s, notify, cw.pa(s, e2a, 1), cw.meas2.Address(), false, nil, c17MeasCmd(side+k, k%4 < 2))
+				})
 		}},
 		{name: "in.reply.meas(matching)", conn: true, f: func(cw *c17W, s, side, k int) {
-			cw.in(s, reply, cw.pa(s, e1a, 2), cw.mcl.Address(), false, util.Ptr(model.MsgCounterType(cw.cn(s).reqMc.Load())), c17MeasCmd(side, false))
+			c17Rot(k, func() {
+				cw.in(s, reply, cw.pa(s, e1a, 2), cw.mcl.Address(), false, util.Ptr(model.MsgCounterType(cw.cn(s).reqMc.Load())), c17MeasCmd(side, false))
+			}, func() {
+				cw.in(s, reply, cw.pa(s, e2a, 1), cw.meas2.Address(), false, util.Ptr(model.MsgCounterType(cw.cn(s).reqMc2.Load())), c17MeasCmd(side, false))
+			})
 		}},
 		{name: "in.result(matching)", conn: true, f: func(cw *c17W, s, side, k int) {
-			cw.in(s, model.CmdClassifierTypeResult, cw.pa(s, e1a, 2), cw.mcl.Address(), false, util.Ptr(model.MsgCounterType(cw.cn(s).reqMc.Load())),
-				model.CmdType{ResultData: &model.ResultDataType{ErrorNumber: util.Ptr(model.ErrorNumberType(k % 2))}})
+			c17Rot(k, func() {
+				cw.in(s, model.CmdClassifierTypeResult, cw.pa(s, e1a, 2), cw.mcl.Address(), false, util.Ptr(model.MsgCounterType(cw.cn(s).reqMc.Load())),
+					model.CmdType{ResultData: &model.ResultDataType{ErrorNumber: util.Ptr(model.ErrorNumberType(k % 2))}})
+			}, func() {
+				cw.in(s, model.CmdClassifierTypeResult, cw.pa(s, e2a, 1), cw.meas2.Address(), false, util.Ptr(model.MsgCounterType(cw.cn(s).reqMc2.Load())),
+					model.CmdType{ResultData: &model.ResultDataType{ErrorNumber: util.Ptr(model.ErrorNumberType(k / 2 % 2))}})
+			})
 		}},
-		{name: "in.subscribe", conn: true, f: nmCall(func(cw *c17W, s int) model.CmdType {
-			return model.CmdType{NodeManagementSubscriptionRequestCall: spine.NewNodeManagementSubscriptionRequestCallType(cw.pa(s, e1a, 3), cw.dd.Address(), model.FeatureTypeTypeDeviceDiagnosis)}
-		})},
+		{name: "in.subscribe", conn: true, f: func(cw *c17W, s, side, k int) {
+			c17Rot(k, func() {
+				cw.in(s, call, cw.nm(s), rig.LNM, true, nil, model.CmdType{NodeManagementSubscriptionRequestCall: spine.NewNodeManagementSubscriptionRequestCallType(cw.pa(s, e1a, 3), cw.dd.Address(), model.FeatureTypeTypeDeviceDiagnosis)})
+			}, func() {
+				cw.in(s, call, cw.nm(s), rig.LNM, true, nil, model.CmdType{NodeManagementSubscriptionRequestCall: spine.NewNodeManagementSubscriptionRequestCallType(cw.pa(s, e1a, 3), cw.dd2.Address(), model.FeatureTypeTypeDeviceDiagnosis)})
+			})
+		}},
 		{name: "in.unsubscribe", conn: true, f: nmCall(func(cw *c17W, s int) model.CmdType {
 			return model.CmdType{NodeManagementSubscriptionDeleteCall: spine.NewNodeManagementSubscriptionDeleteCallType(cw.pa(s, e1a, 1), cw.lc.Address())}
 		})},
@@ -127,11 +187,27 @@ func c17Ops() []c17Op {
 			cw.in(s, notify, cw.nm(s), rig.LNM, false, nil, model.CmdType{Function: util.Ptr(model.FunctionTypeNodeManagementDetailedDiscoveryData), Filter: []model.FilterType{*model.NewFilterTypePartial()}, NodeManagementDetailedDiscoveryData: d})
 		}},
 		{name: "in.discovery.notify.remove", conn: true, f: func(cw *c17W, s, side, k int) {
-			d := cw.discovery(s, nil, nil, [][]uint{{2}})
-			if k%2 == 1 { // announce it again, so that the next round removes it again
+			var d *model.NodeManagementDetailedDiscoveryDataType
+			kk := k % 4
+			if cw.soak { // random k: entity [1] comes back three times as often as it goes
+				kk = []int{0, 1, 2, 3, 0, 1, 3, 3}[k%8]
+			}
+			switch kk {
+			case 0:
+				d = cw.discovery(s, nil, nil, [][]uint{{2}})
+			case 1: // announce it again, so that the next round removes it again
 				d = cw.discovery(s, c17Feats()[4:], map[string]model.NetworkManagementStateChangeType{"[2]": model.NetworkManagementStateChangeTypeAdded}, nil)
+			case 2:
+				// the BUSY entity of the peer goes: the one that holds the binding and the subscriptions to the local server
+				// features, whose writes wait for their verdict and whose server feature the local client is subscribed and bound to
+				d = cw.discovery(s, nil, nil, [][]uint{{1}})
+			default: // ... and comes back: the peer binds and subscribes again, as it would
+				d = cw.discovery(s, c17Feats()[1:4], map[string]model.NetworkManagementStateChangeType{"[1]": model.NetworkManagementStateChangeTypeAdded}, nil)
 			}
 			cw.in(s, notify, cw.nm(s), rig.LNM, false, nil, model.CmdType{Function: util.Ptr(model.FunctionTypeNodeManagementDetailedDiscoveryData), Filter: []model.FilterType{*model.NewFilterTypePartial()}, NodeManagementDetailedDiscoveryData: d})
+			if kk == 3 {
+				cw.rebind(s, cw.in)
+			}
 		}},
 		{name: "in.discovery.notify.full", conn: true, f: func(cw *c17W, s, side, k int) {
 			feats := c17Feats()
@@ -164,13 +240,18 @@ func c17Ops() []c17Op {
 				cw.lc.UpdateData(model.FunctionTypeLoadControlLimitListData, &model.LoadControlLimitListDataType{}, nil, del) // (a nil data argument panics in UpdateDataAny: not a concurrency matter)
 			}
 		}},
+		// (the copy is read, retained by the duellist and read again in its next round: keep)
 		{name: "api.DataCopy.local", f: func(cw *c17W, s, side, k int) {
-			_ = rig.JS(cw.lc.DataCopy(model.FunctionTypeLoadControlLimitListData))
-			_ = rig.JS(cw.local.NodeManagement().DataCopy(model.FunctionTypeNodeManagementUseCaseData))
+			c17Rot(k, func() { cw.keep(&cw.keptOp[side], cw.lc.DataCopy(model.FunctionTypeLoadControlLimitListData)) },
+				func() { cw.keep(&cw.keptOp[side], cw.lc2.DataCopy(model.FunctionTypeLoadControlLimitListData)) },
+				func() { _ = rig.JS(cw.local.NodeManagement().DataCopy(model.FunctionTypeNodeManagementUseCaseData)) })
 		}},
 		{name: "api.DataCopy.remote", conn: true, f: func(cw *c17W, s, side, k int) {
 			if f := cw.rf(s, e1a, 2); f != nil {
-				_ = rig.JS(f.DataCopy(model.FunctionTypeMeasurementListData))
+				cw.keep(&cw.keptOp[side], f.DataCopy(model.FunctionTypeMeasurementListData))
+			}
+			if f := cw.rf(s, e2a, 1); f != nil {
+				cw.keep(&cw.keptOp[side], f.DataCopy(model.FunctionTypeMeasurementListData))
 			}
 		}},
 		{name: "api.FeatureRemote.meta", conn: true, f: func(cw *c17W, s, side, k int) {
@@ -216,9 +297,33 @@ func c17Ops() []c17Op {
 			_, _ = m.BindToRemote(cw.pa(s, e1a, 2))
 			cw.local.RemoveEntity(e)
 		}},
+		// The removed state lasts a whole round of the duel (removal in even rounds, re-addition in odd ones), and the
+		// re-addition restores what the removal took away (use cases, the client feature's subscriptions and bindings to
+		// the peer, the heartbeat), so that every removal meets a populated entity again. The soak does both at once.
 		{name: "api.RemoveEntity(shared)+AddEntity", rare: 10, f: func(cw *c17W, s, side, k int) {
-			cw.local.RemoveEntity(cw.e2)
-			cw.local.AddEntity(cw.e2)
+			if cw.soak || k%2 == 0 {
+				cw.local.RemoveEntity(cw.e2)
+			}
+			if cw.soak || k%2 == 1 {
+				cw.local.AddEntity(cw.e2)
+				_, _ = cw.meas2.SubscribeToRemote(cw.pa(s, e2a, 1))
+				_, _ = cw.meas2.BindToRemote(cw.pa(s, e2a, 1))
+				cw.e2.AddUseCaseSupport(model.UseCaseActorTypeEV, model.UseCaseNameTypeEVStateOfCharge, "1.0.0", "", true, []model.UseCaseScenarioSupportType{1})
+			}
+		}},
+		// the same with the BUSY entity [1]: it holds the bound server feature with its pending approvals and timers, the
+		// heartbeat with its subscribers and the client feature with its outstanding requests and callbacks
+		{name: "api.RemoveEntity(busy)+AddEntity", rare: 10, f: func(cw *c17W, s, side, k int) {
+			if cw.soak || k%2 == 0 {
+				cw.local.RemoveEntity(cw.e1)
+			}
+			if cw.soak || k%2 == 1 {
+				cw.local.AddEntity(cw.e1)
+				cw.e1.AddUseCaseSupport(model.UseCaseActorTypeCEM, model.UseCaseNameTypeLimitationOfPowerConsumption, "1.0.0", "", true, []model.UseCaseScenarioSupportType{1, 2})
+				_ = cw.e1.HeartbeatManager().StartHeartbeat()
+				_, _ = cw.mcl.SubscribeToRemote(cw.pa(s, e1a, 2))
+				_, _ = cw.mcl.BindToRemote(cw.pa(s, e1a, 2))
+			}
 		}},
 		{name: "api.GetOrAddFeature", hook: true, f: func(cw *c17W, s, side, k int) {
 			c17Rot(k, func() { _ = cw.e1.GetOrAddFeature(model.FeatureTypeTypeSetpoint, model.RoleTypeServer) },
@@ -268,6 +373,12 @@ func c17Ops() []c17Op {
 				}
 				_, _ = cw.mcl.RequestRemoteData(model.FunctionTypeMeasurementListData, nil, nil, f) // de-duplicated
 			}
+			if f := cw.rf(s, e2a, 1); f != nil { // the client feature of entity [2] asks the peer's entity [2]
+				sel := &model.MeasurementListDataSelectorsType{MeasurementId: util.Ptr(model.MeasurementIdType(cw.uniq.Add(1)))}
+				if mc, err := cw.meas2.RequestRemoteData(model.FunctionTypeMeasurementListData, sel, nil, f); err == nil && mc != nil {
+					cw.cn(s).reqMc2.Store(uint64(*mc))
+				}
+			}
 		}},
 		{name: "api.SubscribeToRemote", conn: true, f: func(cw *c17W, s, side, k int) { _, _ = cw.mcl.SubscribeToRemote(cw.pa(s, e1a, 2)) }},
 		{name: "api.RemoveRemoteSubscription", conn: true, f: func(cw *c17W, s, side, k int) { _, _ = cw.mcl.RemoveRemoteSubscription(cw.pa(s, e1a, 2)) }},
@@ -281,7 +392,11 @@ func c17Ops() []c17Op {
 			cw.mcl.RemoveAllRemoteBindings()
 		}},
 		{name: "api.AddResponse+ResultCallback", conn: true, f: func(cw *c17W, s, side, k int) {
-			cb := func(api.ResponseMessage) { cw.cbRuns.Add(1) }
+			cb := func(msg api.ResponseMessage) {
+				defer cw.guardCB("response")
+				defer cw.cbEnter(c17CbResponse)()
+				cw.keep(&cw.keptCB[c17CbResponse], msg.Data)
+			}
 			_ = cw.mcl.AddResponseCallback(model.MsgCounterType(cw.cn(s).reqMc.Load()), cb)
 			if !cw.soak || cw.nResult.Add(1) <= 6 {
 				cw.mcl.AddResultCallback(cb)
@@ -295,7 +410,8 @@ func c17Ops() []c17Op {
 			}
 			_ = cw.lc.AddWriteApprovalCallback(func(m *api.Message) {
 				defer cw.guardCB("approval")
-				cw.cbRuns.Add(1)
+				defer cw.cbEnter(c17CbApproval)()
+				cw.keepMsg(m)
 				if cw.soak {
 					cw.lc.ApproveOrDenyWrite(m, model.ErrorType{})
 				}
@@ -421,11 +537,9 @@ func c17Ops() []c17Op {
 		// ---- a connection without writer (every send to it fails): its discovery reply and some of its requests are
 		// handled, then the requests an application sends to a peer are issued, each at least twice per duel
 		{name: "mute.discovery-reply+requests", conn: true, f: func(cw *c17W, s, side, k int) {
-			rd := cw.muteIn(s, k%16 == 15, k%2 == 0, func(m *c17Mute, send func(cl model.CmdClassifierType, src, dst *model.FeatureAddressType, ack bool, ref *model.MsgCounterType, cmd model.CmdType)) {
-				nm := rig.FA(m.addr, []uint{0}, 0)
-				send(read, nm, rig.LNM, false, nil, model.CmdType{NodeManagementDetailedDiscoveryData: &model.NodeManagementDetailedDiscoveryDataType{}})
-				send(call, nm, rig.LNM, true, nil, model.CmdType{NodeManagementSubscriptionRequestCall: spine.NewNodeManagementSubscriptionRequestCallType(rig.FA(m.addr, e1a, 1), cw.lc.Address(), model.FeatureTypeTypeLoadControl)})
-			})
+			rd := cw.muteIn(s, k%16 == 15, k%2 == 0, func(m *c17Mute, send c17MuteSend) {
+				send(read, rig.FA(m.addr, []uint{0}, 0), rig.LNM, false, nil, model.CmdType{NodeManagementDetailedDiscoveryData: &model.NodeManagementDetailedDiscoveryDataType{}})
+			}, cw.muteSubs)
 			cw.muteRequests(s, rd, k)
 		}},
 
